@@ -93,15 +93,8 @@ def depsAll (cfg : Cfg) (G : Graph) (lim : Limit) (hidden : Bool) (roots : List 
 def rev (G : Graph) (p : Nat) : List Nat :=
   G.nodes.flatMap fun t => (G.adj t).filterMap fun d => if d == p then some t else none
 
-/-- `isSameTarget(graph, lhs, rhs)` -/
-def isSameTarget (G : Graph) (a b : Nat) : Bool :=
-  if a == b then true
-  else
-    let a' := if G.hid a then parentT G a else some a
-    let b' := if G.hid b then parentT G b else some b
-    match a', b' with
-    | some x, some y => x == y
-    | _, _ => false
+/-- `isSameTarget(graph, lhs, rhs)`: the same target, or two targets whose labels have the same parent -/
+def isSameTarget (G : Graph) (a b : Nat) : Bool := a == b || G.pl a == G.pl b
 
 structure RSt where
   queue : List (Nat × Nat)      -- (target, depth), front first
